@@ -116,18 +116,27 @@ GLM_FUNC_QUALIFIER glm_vec4 glm_vec4_sign(glm_vec4 x)
 	return or0;
 }
 
-GLM_FUNC_QUALIFIER glm_vec4 glm_vec4_round(glm_vec4 x)
+GLM_FUNC_QUALIFIER glm_vec4 glm_vec4_trunc(glm_vec4 x)
 {
 #	if GLM_ARCH & GLM_ARCH_SSE41_BIT
-		return _mm_round_ps(x, _MM_FROUND_TO_NEAREST_INT);
+		return _mm_round_ps(x, _MM_FROUND_TO_ZERO | _MM_FROUND_NO_EXC);
 #	else
-		glm_vec4 const sgn0 = _mm_castsi128_ps(_mm_set1_epi32(int(0x80000000)));
-		glm_vec4 const and0 = _mm_and_ps(sgn0, x);
-		glm_vec4 const or0 = _mm_or_ps(and0, _mm_set_ps1(8388608.0f));
-		glm_vec4 const add0 = glm_vec4_add(x, or0);
-		glm_vec4 const sub0 = glm_vec4_sub(add0, or0);
-		return sub0;
+		// |x| >= 2^23 (and NaN) is already integral: keep x; below, the int32 round trip is exact
+		glm_vec4 const sml0 = _mm_cmplt_ps(glm_vec4_abs(x), _mm_set_ps1(8388608.0f));
+		glm_vec4 const cvt0 = _mm_cvtepi32_ps(_mm_cvttps_epi32(_mm_and_ps(sml0, x)));
+		return _mm_or_ps(_mm_and_ps(sml0, cvt0), _mm_andnot_ps(sml0, x));
 #	endif
+}
+
+GLM_FUNC_QUALIFIER glm_vec4 glm_vec4_round(glm_vec4 x)
+{
+	// nearest integer, ties away from zero (std::round)
+	glm_vec4 const trc0 = glm_vec4_trunc(x);
+	glm_vec4 const dif0 = glm_vec4_abs(glm_vec4_sub(x, trc0));
+	glm_vec4 const cmp0 = _mm_cmpge_ps(dif0, _mm_set_ps1(0.5f));
+	glm_vec4 const sgn0 = _mm_and_ps(_mm_castsi128_ps(_mm_set1_epi32(int(0x80000000))), x);
+	glm_vec4 const one0 = _mm_or_ps(sgn0, _mm_set_ps1(1.0f));
+	return glm_vec4_add(trc0, _mm_and_ps(cmp0, one0));
 }
 
 GLM_FUNC_QUALIFIER glm_vec4 glm_vec4_floor(glm_vec4 x)
@@ -135,11 +144,10 @@ GLM_FUNC_QUALIFIER glm_vec4 glm_vec4_floor(glm_vec4 x)
 #	if GLM_ARCH & GLM_ARCH_SSE41_BIT
 		return _mm_floor_ps(x);
 #	else
-		glm_vec4 const rnd0 = glm_vec4_round(x);
-		glm_vec4 const cmp0 = _mm_cmplt_ps(x, rnd0);
+		glm_vec4 const trc0 = glm_vec4_trunc(x);
+		glm_vec4 const cmp0 = _mm_cmplt_ps(x, trc0);
 		glm_vec4 const and0 = _mm_and_ps(cmp0, _mm_set1_ps(1.0f));
-		glm_vec4 const sub0 = glm_vec4_sub(rnd0, and0);
-		return sub0;
+		return glm_vec4_sub(trc0, and0);
 #	endif
 }
 
@@ -166,11 +174,10 @@ GLM_FUNC_QUALIFIER glm_vec4 glm_vec4_ceil(glm_vec4 x)
 #	if GLM_ARCH & GLM_ARCH_SSE41_BIT
 		return _mm_ceil_ps(x);
 #	else
-		glm_vec4 const rnd0 = glm_vec4_round(x);
-		glm_vec4 const cmp0 = _mm_cmpgt_ps(x, rnd0);
+		glm_vec4 const trc0 = glm_vec4_trunc(x);
+		glm_vec4 const cmp0 = _mm_cmpgt_ps(x, trc0);
 		glm_vec4 const and0 = _mm_and_ps(cmp0, _mm_set1_ps(1.0f));
-		glm_vec4 const add0 = glm_vec4_add(rnd0, and0);
-		return add0;
+		return glm_vec4_add(trc0, and0);
 #	endif
 }
 
